@@ -180,7 +180,8 @@ def main(tier, seed, only=None):
         from vmc import explore
         from harness import l3
         cfgs = l3_configs(tier)
-        for (cfg, b, cap), d in zip(cfgs, l3.explore_split(cfgs)):
+        for (cfg, b, cap), d in zip(cfgs, l3.explore_split(
+                cfgs, wall_s=1500 if tier == 'thorough' else 300)):
             found = d.pop('found')
             st = explore.Stats()
             st.merge(d)
